@@ -17,9 +17,8 @@ import (
 // outcomes refuse / hang / accept; clients close at tape-chosen times. Oracle: per
 // connection attempt each distinct (normalised) backend is dialled at most once; order per
 // strategy (sequential: config order; round-robin: the first pick rotates across
-// attempts - checked when attempts do not overlap; least-connections: a backend with a
-// minimal number of open forwarded links at pick time; lowest-latency: not asserted beyond
-// at-most-once); the attempt fails only after all failed; ActiveConnections() equals the
+// attempts - checked when attempts do not overlap; least-connections, lowest-latency and
+// random: not asserted beyond at-most-once); the attempt fails only after all failed; ActiveConnections() equals the
 // number of open forwarded links at every quiescent step and 0 at cool-down.
 func init() {
 	Register(&Scenario{Prop: "C30", Desc: "lite strategies: each backend once per attempt; fair counts", Run: runC30,
